@@ -1212,18 +1212,17 @@ func handleZRANGESTORE(params internal.HandlerFuncParams) ([]byte, error) {
 		}
 	}
 
-	if !sourceExists {
-		return []byte("*0\r\n"), nil
+	// A source that does not exist is an empty sorted set: the (empty) range
+	// still replaces the destination and 0 is returned.
+	set := NewSortedSet([]MemberParam{})
+	if sourceExists {
+		var ok bool
+		set, ok = params.GetValues(params.Context, []string{source})[source].(*SortedSet)
+		if !ok {
+			return nil, fmt.Errorf("value at %s is not a sorted set", source)
+		}
 	}
 
-	set, ok := params.GetValues(params.Context, []string{source})[source].(*SortedSet)
-	if !ok {
-		return nil, fmt.Errorf("value at %s is not a sorted set", source)
-	}
-
-	if offset > set.Cardinality() {
-		return []byte(":0\r\n"), nil
-	}
 	if count < 0 {
 		count = set.Cardinality() - offset
 	}
